@@ -25,7 +25,7 @@ ASSUMPTIONS = [
     "scipy.signal.decimate/detrend/butter/sosfiltfilt are the reference operations (trusted)",
     "Wn and breakpoints are computed from the model's current fs/length, so a stale fs in the implementation changes the filter it designs",
     "events ('bad', ...): a preprocessing call with an illegal argument (q=2.0, ftype='FIR', btype='lowpas', type='quadratic') that raises and is caught by the user; the model is left unchanged by it, and so must the setup be (data, sampling attributes, what later add_algorithms calls hand over). If a tree accepts the argument instead of raising, the history is counted as not judged",
-    "event ('rt',): the setup object is replaced by its deepcopy / pickle round trip / save_to_file+load_from_file round trip / shallow copy (rotating with the position in the history) and the history continues on the returned object, judged against the same model (in particular a later rollback must restore the INITIAL data); files go to /root/scratch and are removed at once",
+    "event ('rt',): the setup object is replaced by its deepcopy / pickle round trip / save_to_file+load_from_file round trip / shallow copy (rotating with the position in the history) and the history continues on the returned object, judged against the same model (in particular a later rollback must restore the INITIAL data); the file is written to the default temporary directory and removed at once",
     "the duration attribute after a decimation is a listed known finding (pinned by three existing tests); every other duration mismatch is a violation",
 ]
 
@@ -268,7 +268,7 @@ def round_trip(o, form):
     if k == 2:
         from pyoma2.functions import gen
 
-        fd, path = tempfile.mkstemp(suffix=".pkl", dir=os.environ.get("VERIF_SCRATCH", "/root/scratch"))
+        fd, path = tempfile.mkstemp(suffix=".pkl", prefix="c14-rt-")     # default temporary directory; removed below
         os.close(fd)
         try:
             gen.save_to_file(o, path)
